@@ -361,3 +361,72 @@ theorem fresh_det {jt : JetTypes} (ρ : Nat → Inf.Ty) (i i' : Nat) (nd nd' : N
 #print axioms nodeEqns_rename
 #print axioms fresh_det
 end Prog
+
+namespace Prog
+open Inf (Tm Eqn)
+
+theorem go_nodes_some {jt : JetTypes} (p : Plan) : ∀ (nodes : List Node) (i f : Nat) (acc E : List Eqn),
+    (∀ k, nodes[k]? = p[i + k]?) → f = frOf p i →
+    constraints.go jt i nodes f acc = some E →
+    ∀ k nd, i ≤ k → p[k]? = some nd → (nodeEqns jt k nd (frOf p k)).isSome
+  | [], i, f, acc, E, hn, hf, h => by
+    intro k nd hk hp
+    have := hn (k - i)
+    rw [show i + (k - i) = k by omega, hp] at this
+    simp at this
+  | nd :: rest, i, f, acc, E, hn, hf, h => by
+    simp only [constraints.go, Option.bind_eq_bind, Option.bind_eq_some_iff] at h
+    obtain ⟨⟨es, f'⟩, hne, hgo⟩ := h
+    have hpi : p[i]? = some nd := by
+      have := hn 0
+      simpa using this.symm
+    have hf' : f' = frOf p (i + 1) := by
+      rw [nodeEqns_fresh hne, hf]
+      simp [frOf, nfAt, hpi]
+    have ih := go_nodes_some p rest (i + 1) f' (acc ++ es) E
+      (fun k => by
+        have := hn (k + 1)
+        simp only [List.getElem?_cons_succ] at this
+        rw [this]; congr 1; omega) hf' hgo
+    intro k nd' hk hp
+    by_cases e : k = i
+    · subst e
+      rw [hpi] at hp; cases hp
+      rw [← hf, hne]; rfl
+    · exact ih k nd' (by omega) hp
+
+theorem constraints_nodes_some {jt : JetTypes} {p : Plan} {E : List Eqn}
+    (h : constraints jt p true = some E) :
+    ∀ k nd, p[k]? = some nd → (nodeEqns jt k nd (frOf p k)).isSome := by
+  simp only [constraints, Option.bind_eq_bind, Option.bind_eq_some_iff, Option.pure_def,
+    Option.some.injEq, if_true] at h
+  obtain ⟨es, hgo, _⟩ := h
+  exact fun k nd hp => go_nodes_some p p.toList 0 (2 * p.size) [] es (fun k => by simp) rfl hgo k nd (Nat.zero_le _) hp
+
+/-- what an accepting run of `infer` went through -/
+theorem infer_ok_inv {jt : JetTypes} {p : Plan} {arrows : Array (BM4.Ty × BM4.Ty)}
+    (h : infer jt p true = .ok arrows) :
+    ∃ E S, constraints jt p true = some E ∧ Inf.unify unifyFuel E [] = .ok S ∧
+      arrows = (Array.range p.size).map fun i =>
+        (tyOfInf (Inf.closeUnit S (2 * i)), tyOfInf (Inf.closeUnit S (2 * i + 1))) := by
+  unfold infer at h
+  cases hc : constraints jt p true with
+  | none => rw [hc] at h; cases h
+  | some E =>
+    rw [hc] at h
+    simp only at h
+    cases hu : Inf.unify unifyFuel E [] with
+    | ok S =>
+      rw [hu] at h
+      simp only [InferRes.ok.injEq] at h
+      exact ⟨E, S, rfl, hu, h.symm⟩
+    | clash => rw [hu] at h; cases h
+    | occurs => rw [hu] at h; cases h
+    | fuel => rw [hu] at h; cases h
+
+theorem arrows_getD (ρ : Nat → Inf.Ty) (n i : Nat) (hi : i < n) :
+    ((Array.range n).map fun i => (tyOfInf (ρ (2 * i)), tyOfInf (ρ (2 * i + 1)))).getD i (.one, .one) =
+      (tyOfInf (ρ (2 * i)), tyOfInf (ρ (2 * i + 1))) := by
+  simp [Array.getD, hi]
+
+end Prog
